@@ -316,10 +316,10 @@ def vis_sig(c, tool, observed):
     # a pub declaration the importer cannot use
     if c["ref"].endswith("alias"):
         why = "alias"
-    elif c["kind"] == "const" and c["ref"] in ("from", "item"):
-        why = "const-import"
     elif not c[tool + "_loaded"]:
         why = f"module-not-loaded:{tool}"
+    elif c["kind"] == "const" and c["ref"] in ("from", "item"):
+        why = "const-import"
     else:
         why = f"other:{c['ref']}:{c['kind']}:{c['use']}:{tool}"
     return f"visibility-pub-rejected:{why}"
